@@ -108,6 +108,8 @@ class StepInterp(Evaluator):
         if isinstance(s, ast.Assign) and len(s.targets) == 1:
             v = self.ev(s.value)
             self.bind(s.targets[0], v)
+        elif isinstance(s, ast.AugAssign) and isinstance(s.target, ast.Name) and s.target.id in self.env:
+            self.env[s.target.id] = self.ev(ast.BinOp(left=ast.Name(id=s.target.id, ctx=ast.Load()), op=s.op, right=s.value))
         elif isinstance(s, ast.Expr) and isinstance(s.value, ast.Call):
             c = s.value
             nm = call_name(c)
